@@ -403,6 +403,11 @@ def r_formula(ctx):
                 continue
             E = s[1]          # the term used as the end of the removed range
             row.expect_eq("tail count", n, OL - E, c, "tail-count")
+            for dd in ds:
+                if not before_in(I, dd, c) and I.reachable_from(c.gid) & {dd.gid}:
+                    row.fail("the tail is moved before the unyielded elements are destroyed: the move may overwrite them, live tail elements are then destroyed instead",
+                             c, "destroy-before-move")
+                    break
             if not has_replacement:
                 row.expect_eq("tail destination slot", d[1], start, c, "tail-dst")
                 row.expect_eq("final length", fl, OL - (E - start), st, "len")
@@ -681,6 +686,13 @@ def _capacity_rows(res, ctx, arms):
             row.expect_eq("requested additional capacity", r["n"], L0 + add - cap, r, "amount")
             if not implies(r["facts"], cmp_fact("Lt", cap, L0 + add)):
                 row.fail("growth is not guarded by CAP < LEN + additional (no-op when sufficient)", r, "guard")
+            # ... and happens on every path that needs it: a return without growth only when the capacity suffices
+            for ret in I.all_effects(("RETURN",)):
+                def ok_at(g, r=r):
+                    return g == r.gid or implies(I.facts_at(g), cmp_fact("Le", L0 + add, cap))
+                if not every_path_to(I, ret.gid, ok_at):
+                    row.fail("a path returns without growing although CAP >= LEN + additional is not established (capacity promise broken for some element layouts)", ret, "all-paths")
+                    break
             _no_other(row, I, allowed=("RESERVE",))
             row.done()
     for p in (RAW + "shrink_to_fit", RAW + "shrink_to"):
